@@ -167,7 +167,7 @@ Proof.
 Qed.
 Lemma m_concat_wf m os : wfres (m_concat m os).
 Proof.
-  unfold m_concat. destruct (negb _); [simpl; discriminate|].
+  unfold m_concat. destruct (negb _); [simpl; discriminate|]. destruct (negb _); [simpl; discriminate|].
   match goal with |- wfres (match collect ?x with _ => _ end) =>
     assert (H : wfres (collect x)) end.
   { apply collect_wf. apply Forall_forall. intros r Hr. apply in_map_iff in Hr.
@@ -233,7 +233,7 @@ Proof.
 Qed.
 Lemma m_concat_inv m os m' o : m_concat m os = (Some m', o) -> Inv_m m'.
 Proof.
-  unfold m_concat. destruct (negb _); [discriminate|].
+  unfold m_concat. destruct (negb _); [discriminate|]. destruct (negb _); [discriminate|].
   destruct (collect _) as [[l|] e]; [|discriminate]. apply m_construct_inv.
 Qed.
 
